@@ -17,8 +17,9 @@ package c01
 //
 //	(s1) every submitted object is one of the objects of the Broadcast call it is submitted in: the same signed
 //	     object and the same signature (attestation: version, hash_tree_root(data), signature, aggregation bits,
-//	     committee bits; a validator index the aggregate carried must be handed on unchanged), one submitted
-//	     object per entry of the call
+//	     committee bits; the unsigned validator index may be set or replaced by the broadcaster's repair, which
+//	     re-resolves every attestation of a set in which one lacks it: (s2) judges the index handed over),
+//	     one submitted object per entry of the call
 //	(s2) its signature verifies under the group public key of the validator the beacon node attributes it to
 //	     (Electra attestation: the validator named by ValidatorIndex, the attester_index of the SingleAttestation
 //	     the eth2 client posts; Deneb attestation: committee index + aggregation bit; aggregate / contribution and
@@ -42,13 +43,13 @@ import (
 	"sync"
 	"time"
 
+	"github.com/OffchainLabs/go-bitfield"
 	eth2api "github.com/attestantio/go-eth2-client/api"
 	eth2v1 "github.com/attestantio/go-eth2-client/api/v1"
 	eth2spec "github.com/attestantio/go-eth2-client/spec"
 	"github.com/attestantio/go-eth2-client/spec/altair"
 	"github.com/attestantio/go-eth2-client/spec/electra"
 	eth2p0 "github.com/attestantio/go-eth2-client/spec/phase0"
-	"github.com/OffchainLabs/go-bitfield"
 	"github.com/libp2p/go-msgio/pbio"
 
 	"github.com/obolnetwork/charon/app/errors"
@@ -364,7 +365,7 @@ type subOracle struct {
 	nSlots     int
 	beaconErrs bool
 
-	isByz      []bool
+	isByz []bool
 
 	mu            sync.Mutex
 	calls         map[string]int    // injected endpoint failures per node and endpoint
@@ -722,7 +723,10 @@ func (s *subOracle) onAttestation(node int, call *bcastCall, a *eth2spec.Version
 	if entry != nil && isElectra {
 		switch {
 		case entry.valIdx != nil && (a.ValidatorIndex == nil || *a.ValidatorIndex != *entry.valIdx):
-			c.Violate("C01", "submitted-not-aggregated", "attestation-validator-index-changed-by-the-broadcaster", "node %d: Broadcast(%s) was given an attestation with validator index %d and handed %s to the beacon node", node, call.duty, *entry.valIdx, what)
+			// the (unsigned) index is not part of the signed object: once one attestation of a set lacks the index the
+			// broadcaster's repair resolves ALL attestations of the set again, also those that came with one (a foreign
+			// index is overwritten with the signer's). (s2) judges the index that is handed over, whoever set it
+			verifrt.Probe("bcast-repair:validator-index-overwritten")
 		case entry.valIdx == nil && a.ValidatorIndex != nil:
 			verifrt.Probe("bcast-repair:validator-index-set")
 		case entry.valIdx == nil:
